@@ -83,7 +83,10 @@ pub const EXIT_VIOLATION: i32 = 1;
 pub const EXIT_HARNESS: i32 = 2;
 
 pub fn harness_error(msg: &str) -> ! {
-    eprintln!("HARNESS-ERROR: {msg}");
+    use std::io::Write;
+    // (standard error may be unusable on purpose, see proc::child::BrokenStderr)
+    let _ = writeln!(std::io::stderr(), "HARNESS-ERROR: {msg}");
+    let _ = writeln!(std::io::stdout(), "HARNESS-ERROR: {msg}");
     std::process::exit(EXIT_HARNESS)
 }
 
